@@ -572,6 +572,9 @@ def _run(case, obs, keep_re):
         try:
             if case.get("probe") == "run":
                 prec["value"] = RE([Msg("open_run", probe=True), Msg("close_run")])
+            elif case.get("probe") == "pause":
+                # the next call must be pausable and resumable like a first one
+                prec["value"] = RE([Msg("open_run", probe=True), Msg("checkpoint"), Msg("null", None, "p1"), Msg("pause"), Msg("null", None, "p2"), Msg("close_run")])
             else:
                 prec["value"] = RE([Msg("null")])
             prec["outcome"] = "return"
@@ -588,4 +591,20 @@ def _run(case, obs, keep_re):
         prec["cb_docs_after"] = len(obs.cb_docs)
         prec["hook_start"] = seg.get("hook_base", 0)
         loop.wait_idle()
+        if case.get("probe") == "pause" and str(RE.state) == "paused":
+            loop.begin_segment({}, hold=False)
+            try:
+                RE.resume()
+                prec["resume_outcome"] = "return"
+            except Stuck:
+                prec["resume_outcome"] = "stuck"
+            except CaseTimeout:
+                raise
+            except BaseException as e:  # noqa: BLE001
+                prec["resume_outcome"] = "raise"
+                prec["resume_exc"] = e
+            finally:
+                loop.open_gate()
+            prec["state_after_resume"] = str(RE.state)
+            loop.wait_idle()
     obs.total_handles = loop.total
